@@ -96,5 +96,18 @@ def _install():
     core._PATCH_REGISTRATIONS[codecs.lookup] = _lookup
     ACTIVE.append("codecs.lookup returns the real CodecInfo for pure-Python codecs without stream classes ('bk'); CrossHair's wrapper crashes on them")
 
+    # -- 4. UnicodeEncodeError(...) with a symbolic ``object`` ----------------------------
+    RealUEE = UnicodeEncodeError
+
+    def _uee(encoding, obj, start, end, reason):
+        with _NT():
+            n = realize(len(obj)) if not isinstance(obj, str) else len(obj)
+            dummy = obj if isinstance(obj, str) else "\ufffd" * n
+            return RealUEE(realize(encoding), dummy, realize(start), realize(end), realize(reason))
+
+    core._PATCH_REGISTRATIONS[UnicodeEncodeError] = _uee
+    ACTIVE.append("UnicodeEncodeError(...) accepts a symbolic object: a dummy string of the realised length is substituted, start/end are kept "
+                  "(the C constructor rejects proxies); e.object is therefore never inspected by an oracle")
+
 
 _install()
